@@ -14,6 +14,7 @@ import (
 	"math/bits"
 	"os"
 	"path/filepath"
+	"runtime/debug"
 	"sort"
 	"strconv"
 	"strings"
@@ -46,6 +47,8 @@ type stats struct {
 	Histories int            `json:"histories"`
 	Kinds     map[string]int `json:"kinds"`
 	Skipped   map[string]int `json:"skipped"`
+	// family closure: per universe, the size of the explored state space (gen_closure.go)
+	Closure map[string]map[string]any `json:"closure,omitempty"`
 }
 
 func newStats() *stats {
@@ -250,7 +253,8 @@ var collParts = []string{
 func (g *gen) collString() string {
 	r := g.r
 	if g.wideColl { // one stem followed by one ideograph: up to 256 children under one sort-key byte
-		return g.collStem + string(rune(0x4E00+r.n(600)))
+		// ... sometimes followed by a letter in several case/accent variants: inner nodes BELOW the wide node
+		return g.collStem + string(rune(0x4E00+r.n(600))) + pick(r, []string{"", "", "e", "é", "E", "ee"})
 	}
 	n := 1 + r.n(3)
 	var sb strings.Builder
@@ -445,9 +449,12 @@ func (g *gen) history(tid string, ks kindSpec, prof string, nops int) {
 		}
 		probe = func() string { return xhex(g.alphaProbe(bp)) }
 	case kind == "coll":
-		if r.chance(25) {
+		if r.chance(35) {
 			g.wideColl, g.collStem = true, pick(r, []string{"", "a", "日本", "zebra"})
 			poolN = 60 + r.n(240)
+			if nops < 3*poolN { // long enough to fill the wide nodes
+				nops = 3 * poolN
+			}
 			defer func() { g.wideColl = false }()
 		}
 		col := strings.SplitN(ks.variant, ":", 2)[1]
@@ -1105,6 +1112,23 @@ func genMain(args []string) {
 			g.multiFile(hpf, nops)
 		case "nul": // malformed stream: byte-string keys containing 0x00
 			g.nulFile(hpf, nops)
+		case "closure": // closure[:<profile>]: exhaustive exploration of one small key universe per file; nops = depth bound, hpf = state bound
+			d, m := closureArgs(args)
+			debug.SetGCPercent(800) // hundreds of thousands of short-lived trees
+			prof := ""
+			if len(parts) > 1 {
+				prof = parts[1]
+			}
+			g.closureFile(idx, prof, d, m, func(part int) {
+				w.Flush()
+				f.Close()
+				if f, err = os.Create(strings.TrimSuffix(path, ".cmds") + fmt.Sprintf("_%d.cmds", part)); err != nil {
+					panic(err)
+				}
+				w = bufio.NewWriterSize(f, 1<<20)
+				g.w = w
+				fmt.Fprintf(w, "# family=%s seed=%d idx=%d part=%d uintsize=%d\n", family, seed, idx, part, bits.UintSize)
+			})
 		default:
 			panic("unknown family " + family)
 		}
